@@ -2,16 +2,25 @@
 """print the prompt given to a fresh sub-agent for seeding a breaking change (property text only)"""
 import json,sys
 pid=sys.argv[1]
+suffix=sys.argv[2] if len(sys.argv)>2 else ""
+import os,glob
+prior=[]
+if suffix:
+    for d in sorted(glob.glob('/verif/seeded/%s-*'%pid)):
+        try:
+            t=[l for l in open(d+'/NOTES.md').read().splitlines() if l.strip()][0].lstrip('# ').strip()
+            prior.append(t)
+        except Exception: pass
 for l in open('/verif/properties.jsonl'):
     p=json.loads(l)
     if p['id']==pid: break
 print(f"""You are helping to evaluate a verification effort by writing a realistic BUG into a Go library.
 
-The library is tonistiigi/fsutil (Go library for incremental directory-tree sync over a STAT/REQ/DATA/FIN packet protocol, with pattern-filtered filesystem walking, tree diffing, and cp -a style copy). You have your own scratch git worktree of it at /tmp/wt/{pid} (work ONLY there and in /tmp/seedout/{pid}; never touch /repo or /verif, and do not read anything under /verif).
+The library is tonistiigi/fsutil (Go library for incremental directory-tree sync over a STAT/REQ/DATA/FIN packet protocol, with pattern-filtered filesystem walking, tree diffing, and cp -a style copy). You have your own scratch git worktree of it at /tmp/wt/{pid}{suffix} (work ONLY there and in /tmp/seedout/{pid}{suffix}; never touch /repo or /verif, and do not read anything under /verif).
 
 The sandbox has no network. In every shell call first run:
   export GOFLAGS=-mod=mod GOPROXY=off GOSUMDB=off GOTOOLCHAIN=local
-The existing test-suite is run with:  cd /tmp/wt/{pid} && go test -vet=off -count=1 ./...   (takes a few seconds; you are root, all tests pass on the unchanged tree).
+The existing test-suite is run with:  cd /tmp/wt/{pid}{suffix} && go test -vet=off -count=1 ./...   (takes a few seconds; you are root, all tests pass on the unchanged tree).
 
 Here is a semantic property that the library is supposed to satisfy:
 
@@ -20,13 +29,17 @@ Here is a semantic property that the library is supposed to satisfy:
   It must hold: {p['quantifier']['text']}
   Files involved (hint): {', '.join(p['anchors']['files'])}
 
-YOUR TASK: make a small source change to the library (non-test .go files only, in /tmp/wt/{pid}) that BREAKS this property, such that
+YOUR TASK: make a small source change to the library (non-test .go files only, in /tmp/wt/{pid}{suffix}) that BREAKS this property, such that
   (a) the library still compiles and the ENTIRE existing test suite still passes unedited (run it, several times if the change is timing related), and
   (b) the breakage needs something SPECIFIC to manifest - a particular interleaving, a crash or fault at a particular point, a multi-step sequence of operations, an unusual input (e.g. particular byte values in names, sizes at a boundary, a particular combination of entry types or options), or two cooperating sites that each look fine alone. It must NOT be something ordinary use would expose at once (e.g. not 'every transfer fails').  It should look like a plausible mistake or "optimisation" a maintainer could make, not sabotage. Keep it small (a few lines to ~30 lines).
-  (c) write a DEMONSTRATION: a Go test file (e.g. zz_seed_test.go in the right package dir of the worktree, using only the library's public or package-internal API and the already vendored/cached dependencies such as testify) or a small Go program, that FAILS with your change applied and PASSES on the unchanged code. Verify both directions yourself (use `git stash` / `git stash pop` or `git diff > patch; git checkout -- <files>; ...; git apply patch`).
+  (c) write a DEMONSTRATION: a Go test file (e.g. zz_seed_test.go in the right package dir of the worktree, using only the library's public or package-internal API and the already vendored/cached dependencies such as testify) or a small Go program, that FAILS with your change applied and PASSES on the unchanged code. Verify both directions yourself (use `git diff > /tmp/seedout/{pid}{suffix}/patch.diff; git checkout -- <files>; ...; git apply /tmp/seedout/{pid}{suffix}/patch.diff`; NEVER use `git stash`: the stash is shared with other worktrees).
 
-Deliver into /tmp/seedout/{pid}/ :
+Deliver into /tmp/seedout/{pid}{suffix}/ :
   patch.diff   - output of `git diff` for the non-test source change only (must apply with `git apply` to a clean checkout of the same commit)
   demo_test.go (or demo/main.go) - the demonstration, plus in NOTES.md the exact directory it must be placed in and the exact command to run it
   NOTES.md     - what the change is, why the existing tests do not notice, exactly what is needed for it to manifest, which clause of the property it breaks, and the commands you ran with their outcomes (suite with the change: pass; demo with change: fail; demo without change: pass).
 Leave the worktree with your source change applied and the demo file present. Produce exactly ONE change (the best you found). Finish with a 5-line summary.""")
+if prior:
+    print("\nChanges ALREADY written by others for this property (titles only) - yours must use a DIFFERENT mechanism, preferably in a different function or breaking a different clause of the statement:")
+    for t in prior: print("  - "+t)
+
